@@ -80,17 +80,18 @@ pub fn run(ctx: &Ctx, rep: &mut Report) {
                 let items: Vec<&str> = l.trim_matches(|c| c == '[' || c == ']').split(", ").collect();
                 if items.len() <= 5 && !l.contains("[[") && !l.contains('{') {
                     let g = *rng.pick(&["((acc, x) => acc + x)", "((acc, x, i) => acc + x * i)", "((acc, x) => [acc, x])", "max", "((acc, x, i?) => acc + (i ?? 0))"]);
-                    let mut manual = "0".to_string();
+                    let init = *rng.pick(&["0", "0", "null", "\"\"", "[]", "false", "1.5"]);
+                    let mut manual = init.to_string();
                     let three = g.contains(", i") ;
                     for (i, it) in items.iter().enumerate() {
                         manual = if three { format!("{}({}, {}, {})", g, manual, it, i) } else { format!("{}({}, {})", g, manual, it) };
                     }
-                    let src = format!("{}\nreduce({}, {}, 0)\n{}", PRELUDE, l, g, manual);
-                    rep.case(&format!("reduce({}, {}, 0)", l, g), true);
+                    let src = format!("{}\nreduce({}, {}, {})\n{}", PRELUDE, l, g, init, manual);
+                    rep.case(&format!("reduce({}, {}, {})", l, g, init), true);
                     if let Some(sess) = check_session(&mut model, rep, &src, None, "c13") {
                         let n = sess.outcomes.len();
                         if sess.outcomes[n - 2] != sess.outcomes[n - 1] {
-                            rep.finding("oracle", "reduce-not-left-fold", &format!("reduce({}, {}, 0)", l, g),
+                            rep.finding("oracle", "reduce-not-left-fold", &format!("reduce({}, {}, {})", l, g, init),
                                 &format!("reduce={} manual={}", short(&sess.outcomes[n - 2]), short(&sess.outcomes[n - 1])), "c13.reduce");
                         }
                     }
@@ -103,7 +104,7 @@ pub fn run(ctx: &Ctx, rep: &mut Report) {
         ("[10, 20, 30] via ((x, i) => i)", "[0, 1, 2]"), ("map([10, 20, 30], (x, i) => i)", "[0, 1, 2]"),
         ("[10, 20, 30] where ((x, i) => i != 1)", "[10, 30]"), ("filter([10, 20, 30], (x, i) => i != 1)", "[10, 30]"),
         ("[10, 20] via (x => x)", "[10, 20]"), ("[10, 20] via ((x, i?) => i)", "[0, 1]"), ("[10, 20] via ((...r) => len(r))", "[2, 2]"),
-        ("[10, 20] via ((x, y, z?) => y)", "[0, 1]"), ("reduce([1, 2, 3], (a, x, i) => a + i, 0)", "3"), ("reduce([1, 2, 3], (a, x) => a + x, 10)", "16"),
+        ("[10, 20] via ((x, y, z?) => y)", "[0, 1]"), ("reduce([1, 2, 3], (a, x, i) => a + i, 0)", "3"), ("reduce([1, 2, 3], (a, x) => a + x, 10)", "16"), ("reduce([7, 8, 9], (acc, x) => [acc, x], null)", "[[[null, 7], 8], 9]"), ("reduce([7, 8], (acc, x, i) => [acc, i], null)", "[[null, 0], 1]"), ("reduce([], (acc, x) => x, null)", "null"),
         ("every([1, 2], (x, i) => i < 2)", "true"), ("some([1, 2], (x, i) => i == 5)", "false"), ("[5] via max", "[5]"), ("[[1, 2]] into len", "1"),
     ];
     for (src, expect) in idx_cases.iter() {
